@@ -35,6 +35,12 @@ def _blobs(data):
     return {t: c01.mask_blob(t, v) for t, v in b.items()}
 
 
+def _unesc(v):
+    from xml.sax.saxutils import unescape
+
+    return unescape(v, {"&quot;": '"', "&apos;": "'"})
+
+
 def _parse_dump(main, split):
     """Read back the layout of a dump: main entries and included files (text scan)."""
     d = os.path.dirname(main)
@@ -52,7 +58,7 @@ def _parse_dump(main, split):
             continue
         if depth == 0 and name != "ttFont":
             src = re.search(r'\ssrc="([^"]*)"', attrs or "")
-            entries.append((name, src.group(1) if src else ""))
+            entries.append((name, _unesc(src.group(1)) if src else ""))
         if not selfclose:
             depth += 1
     return entries
@@ -78,7 +84,7 @@ def _top_tables(path):
         if depth == 1 and name == "TTGlyph":
             src = re.search(r'\ssrc="([^"]*)"', attrs or "")
             if src:
-                refs.append(src.group(1))
+                refs.append(_unesc(src.group(1)))
             else:
                 inline += 1
         if not selfclose:
@@ -302,17 +308,22 @@ def configs(thorough, rng):
     return lattice
 
 
-def run(chk):
+PARTS = ("mc", "corpus", "gen", "text")
+
+
+def run(chk, parts=PARTS):
     thorough = chk.tier == "thorough"
     rng = chk.rng
+    grng = random.Random(rng.getrandbits(64))  # the generated fonts' own stream: the same fonts whichever parts run
     chk.rule = ("fonts = corpus binaries, compiled corpus TTX, and generated fonts (adversarial glyph names / TrueType programs / bitmap strikes); "
                 "bytes case = (font, dump configuration): compiled table bytes before vs after dump+import; dump case = files written; "
                 "text case = string through a TTX channel; distinct by (font, configuration) / string; non-trivial = font has >= 5 tables / string "
                 "contains a character XML treats specially")
-    r = chk.tlc("MC_TTXDump", label="dump layout lattice + per-glyph file naming of all glyph-name pairs", timeout=900)
-    rn = chk.tlc("MC_TTXDump", cfg="MC_TTXDump_neg", label="negative: dumper records per-glyph names as written, not lower-cased", timeout=900, expect_ok=False)
-    if rn.exit == 0 or "RefOK is violated" not in rn.stdout:
-        raise MachineryError("negative configuration of MC_TTXDump did not violate RefOK: the include-graph predicate is vacuous")
+    if "mc" in parts:
+        chk.tlc("MC_TTXDump", label="dump layout lattice + per-glyph file naming of all glyph-name pairs", timeout=900)
+        rn = chk.tlc("MC_TTXDump", cfg="MC_TTXDump_neg", label="negative: dumper records per-glyph names as written, not lower-cased", timeout=900, expect_ok=False)
+        if rn.exit == 0 or "RefOK is violated" not in rn.stdout:
+            raise MachineryError("negative configuration of MC_TTXDump did not violate RefOK: the include-graph predicate is vacuous")
     lattice = configs(thorough, rng)
     chk.notes["option_lattice"] = len(lattice)
     bins = fonts.binaries()
@@ -321,11 +332,13 @@ def run(chk):
     if not thorough:
         rng.shuffle(ttx)
         ttx = ttx[:40]
-    compiled = fonts.compiled_ttx_fonts(ttx)
+    compiled = fonts.compiled_ttx_fonts(ttx) if "corpus" in parts else []
     srcs = [("path", p, i) for p, i in members] + [("bytes", (common.rel(p), b), 0) for p, b in compiled]
     jobs = []
     base = {"split": False, "splitGlyphs": False, "disasm": True, "bitmap": "raw", "nl": "\n", "select": "all"}
-    if thorough:
+    if "corpus" not in parts:
+        pass
+    elif thorough:
         for s in srcs:
             for c in [base] + rng.sample(lattice, 12):
                 jobs.append((s[0], s[1], s[2], c, chk.seed, chk.work))
@@ -344,7 +357,7 @@ def run(chk):
                 jobs.append((s[0], s[1], s[2], c, chk.seed, chk.work))
     # generated fonts: each family with the dump configurations that matter to it
     nls = ["\n", "\r\n", "\r"]
-    gspecs = c03_gen.specs(rng, thorough)
+    gspecs = c03_gen.specs(grng, thorough) if "gen" in parts else []
     fam_count = {}
     classes = set()
     for k, sp in enumerate(gspecs):
@@ -352,7 +365,7 @@ def run(chk):
         fam_count[fam] = fam_count.get(fam, 0) + 1
         if fam == "names":
             cfgs = [dict(base, splitGlyphs=True, nl=nls[k % 3]), dict(base, splitGlyphs=True, split=True, disasm=False, nl=nls[(k + 1) % 3]),
-                    dict(base, split=bool(k % 2), select=rng.choice(["all", "only", "skip"]), nl=nls[(k + 2) % 3])]
+                    dict(base, split=bool(k % 2), select=grng.choice(["all", "only", "skip"]), nl=nls[(k + 2) % 3])]
         elif fam == "prog":
             cfgs = [dict(base, disasm=True, nl=nls[k % 3]), dict(base, disasm=False, split=bool(k % 2), nl=nls[(k + 1) % 3]),
                     dict(base, disasm=True, splitGlyphs=True, nl=nls[(k + 2) % 3])]
@@ -380,6 +393,8 @@ def run(chk):
     strings += [list(t) for t in itertools.product(ALPHA, repeat=3)] if thorough else [[rng.choice(ALPHA) for _ in range(3)] for _ in range(600)]
     strings += [[rng.choice(ALPHA) for _ in range(rng.randint(4, 8))] for _ in range(1500 if thorough else 300)]
     strings += [[ord(c) for c in "]]>"], [ord(c) for c in "a]]>b"], [ord(c) for c in "&amp;"], [ord(c) for c in "&#10;"], [ord(c) for c in "<!--x-->"]]
+    if "text" not in parts:
+        strings = []
     chunks = [strings[i::14] for i in range(14)]
     for rs in common.pmap(job_text, [(c, chk.work) for c in chunks]):
         traces.extend(rs)
@@ -422,4 +437,12 @@ def run(chk):
 
 
 def replay(chk, rep):
-    run(chk)
+    """Violations are re-found by re-running the part they came from (same seed => same generated fonts)."""
+    r = rep.get("replay") or {}
+    label = str(r.get("label", ""))
+    if label.startswith("gen:"):
+        run(chk, parts=("gen",))
+    elif r.get("k") == "text":
+        run(chk, parts=("text",))
+    else:
+        run(chk)
